@@ -68,6 +68,10 @@ Palette(T, rootS, d) ==
            (IF T[2] \in {"int", "int64"} THEN {<<"int", 0>>, <<"int", -1>>, <<"int", 300>>}
             ELSE IF T[2] = "int32" THEN {<<"int", 7>>, <<"chr", 97>>}
             ELSE IF T[2] = "int8" THEN {<<"int", -128>>, <<"int", 127>>}
+            ELSE IF T[2] = "int16" THEN {<<"int", 300>>}
+            ELSE IF T[2] = "dur" THEN {<<"dur", "1s">>}
+            ELSE IF T[2] = "nstring" THEN {<<"str", "red">>}
+            ELSE IF T[2] = "nfloat64" THEN {<<"flt", "1.5">>}
             ELSE IF T[2] \in UintKinds THEN {<<"int", 5>>}
             ELSE IF T[2] = "float64" THEN {<<"flt", "1.5">>, <<"int", 2>>}
             ELSE IF T[2] = "float32" THEN {<<"flt", "-0.25">>}
@@ -131,7 +135,8 @@ RECURSIVE WT(_, _, _)
 WT(v, T, objs) ==
     CASE T[1] = "basic" -> (IF T[2] \in IntKinds \cup UintKinds THEN v[1] = "int"
                             ELSE IF T[2] \in FloatKinds THEN v[1] = "flt"
-                            ELSE IF T[2] = "string" THEN v[1] = "str" ELSE v[1] = "bool")
+                            ELSE IF T[2] \in StringKinds THEN v[1] = "str"
+                            ELSE IF T[2] = "dur" THEN v[1] = "dur" ELSE v[1] = "bool")
       [] T[1] = "bytes" -> v[1] = "bytes"
       [] T[1] = "time" -> v[1] = "time"
       [] T[1] = "slice" -> v[1] = "slice" /\ \A i \in 1..Len(v[2]) : WT(v[2][i], T[2], objs)
@@ -171,10 +176,14 @@ UnknownKeyG == E.ok => \A j \in {1} \cup Reach(g, 1) : ~Fill(AddKey(j), 1, NoOpt
 
 WrongFor(T) ==
     CASE T[1] = "basic" -> (IF T[2] \in IntKinds \cup UintKinds \cup FloatKinds
-                            THEN {<<"str", "x">>, <<"bool", TRUE>>, <<"arr", <<>> >>, <<"ref", 2>>, <<"time", 1>>}
+                            THEN {<<"str", "x">>, <<"bool", TRUE>>, <<"arr", <<>> >>, <<"ref", 2>>, <<"time", 1>>, <<"opaque", "int64">>}
+                                 \cup (IF T[2] \in {"float64", "nfloat64"} THEN {<<"bigint", "9007199254740993">>} ELSE {})
+                                 \cup (IF T[2] = "float32" THEN {<<"flt", "1e+300">>} ELSE {})
                                  \cup (IF T[2] \in FloatKinds THEN {} ELSE {<<"flt", "1.5">>})
                                  \cup (IF T[2] = "int8" THEN {<<"int", 300>>} ELSE {})
-                            ELSE IF T[2] = "string" THEN {<<"int", 1>>, <<"bool", TRUE>>, <<"chr", 97>>, <<"raw", <<1>> >>, <<"ref", 2>>}
+                            ELSE IF T[2] \in StringKinds \cup {"dur"}
+                            THEN {<<"int", 1>>, <<"bool", TRUE>>, <<"chr", 97>>, <<"raw", <<1>> >>, <<"ref", 2>>,
+                                  <<"opaque", "(regexpCompile \"a\")">>, <<"uint", 10>>}
                             ELSE {<<"int", 1>>, <<"str", "true">>, <<"arr", <<>> >>})
       [] T[1] = "bytes" -> {<<"int", 1>>, <<"arr", << <<"int", 1>> >> >>, <<"time", 1>>}
       [] T[1] = "time" -> {<<"int", 1>>, <<"str", "x">>, <<"ref", 2>>}
